@@ -274,7 +274,13 @@ def run(ctx):
             else:
                 bad = n
                 break
-        if bad:
+        loop_src = None
+        if bad and cands.k == "call" and isinstance(cands.a[2], int) and cb.blocks[cands.a[2]]["term"]["k"] == "call":
+            from engine.analyses import mapped_vec_loop
+            loop_src = mapped_vec_loop(cb, cb.blocks[cands.a[2]]["term"]["dest"]["l"])
+        if loop_src is not None and loop_src.k == "arg" and loop_src.a[0] == 2:
+            r4.ok("ctor-map", "suggestions = one push per element of a loop over the rank list — same length")
+        elif bad:
             r4.violation("ctor-map", "candidate list is built through %s, which can change its length relative to the rank list" % bad, common.fn_line(prog, list_ctor))
         elif x.k == "arg" and x.a[0] == 2 and seen_map:
             r4.ok("ctor-map", "suggestions = ranks.iter().map(to_owned).collect() — same length")
